@@ -33,7 +33,7 @@ from harness import c12_frames as fr
 DIR = "datapath"
 ADAPTER = "harness.adapters_c12:Adapter"
 PROPS = ["NoEmitBlocked", "IngressExcluded", "NoRecvRespected", "FloodRule", "AllRule", "InOrder",
-         "MissRule", "CountersExact", "PortModExact", "BufferedAsSent"]
+         "TableInOrder", "MissRule", "CountersExact", "PortModExact", "BufferedAsSent"]
 TRAFFIC = ("Rx", "PacketOut", "PacketOutBuf")
 # Several small single-worker JVMs run side by side: keep each one light (startup dominates their run time).
 JVM = {"JAVA_TOOL_OPTIONS": "-XX:ParallelGCThreads=2 -XX:CICompilerCount=2 -XX:TieredStopAtLevel=1"}
@@ -45,6 +45,8 @@ CONFIGS = {
     "pktout_q": (["PacketOut"], {}),
     "pktout": (["PacketOut"], {}),
     "table": (["Rx", "PacketOut", "FlowMod", "FlowDel", "PortMod"], {}),
+    # output:TABLE anywhere in a packet-out list x entries that rewrite the Ethernet header and the headers below it
+    "tabmid": (["PacketOut", "FlowMod", "FlowDel"], {}),
     "ports_q": (["Rx", "PacketOut", "FlowMod", "FlowDel", "PortMod", "PortModBad"], {}),
     "ports": (["Rx", "PacketOut", "FlowMod", "FlowDel", "PortMod", "PortModBad"], {}),
     "buf_q": (["Rx", "PacketOutBuf", "FlowMod", "FlowDel"], dict(MaxHeld=2)),
@@ -54,11 +56,13 @@ CONFIGS = {
     "csum_rx": (["Rx", "FlowMod", "FlowDel"], {}),
     "csum_po": (["PacketOut"], {}),
 }
-QUICK = ["lists_q", "pktout_q", "table", "ports_q", "buf_q", "frag", "csum_rx", "csum_po"]
-THOROUGH = ["lists", "pktout", "table", "ports", "buf", "frag", "csum_rx", "csum_po"]
+QUICK = ["lists_q", "pktout_q", "table", "tabmid", "ports_q", "buf_q", "frag", "csum_rx", "csum_po"]
+THOROUGH = ["lists", "pktout", "table", "tabmid", "ports", "buf", "frag", "csum_rx", "csum_po"]
 CSUM = ("csum_rx", "csum_po")
 # every operation sequence of length D over a small alphabet (history the abstract state does not show)
 PATHS = {"quick": "paths3", "thorough": "paths4"}
+# ... and over packet-outs with output:TABLE in the middle of the list, flow-mods and releases of the buffered frames
+TABPATHS = "tabpaths"
 
 
 # ---------------------------------------------------------------------------
@@ -83,6 +87,14 @@ OUTPUTS = [out(1), out(2), out(3), out(9), out(0xfff8), out(0xfffb), out(0xfffc)
            out(0xfffd, 0), out(0xfffd, 64), out(0xfffd, 200), out(0xfffa), out(0xfffe), out(0xffff),
            act("enqueue", 2, 1), act("enqueue", 3, 0), act("enqueue", 0xfff8, 7)]
 TABLE = out(0xfff9)
+
+
+def table_pos(acts):
+  """'' / 'last' / 'mid' (output:TABLE followed by further actions of the same list)."""
+  ix = [i for i, x in enumerate(acts or []) if x["t"] == "output" and x["n"] == 0xfff9]
+  if not ix:
+    return ""
+  return "mid" if ix[0] < len(acts) - 1 else "last"
 
 
 def random_list(rnd, maxlen=6, minlen=1, controller=True):
@@ -171,6 +183,10 @@ def concretise(beh, orc, shapes, ztab=None):
   for st in beh:
     a, args, exp = st["a"], dict(st["args"]), st["exp"]
     info = {}
+    if a in TRAFFIC:
+      # a packet-out with output:TABLE in the middle of its list ran earlier in this behaviour
+      info["after_table_mid"] = any(p["a"] in ("PacketOut", "PacketOutBuf") and table_pos(p["args"]["acts"]) == "mid"
+                                    for p in out_b)
     if a in ("Rx", "PacketOut"):
       info["csum_shape"] = csum_shape(args["f"], ztab, shapes)
     if a == "FlowMod":
@@ -297,7 +313,8 @@ def run(ctx):
   ctx.rule = ("behaviours exported by TLC from Datapath.tla (one per transition of the abstract state graph "
               "of each configuration = shortest path to the source state + the transition; plus -simulate "
               "runs of depth 30 over seeded random action lists of length <= 6; plus every operation sequence of "
-              "length 3 (4 in thorough) over a small traffic / port-mod alphabet), frame records turned into "
+              "length 3 (4 in thorough) over a small traffic / port-mod alphabet and of length 3 over packet-outs with "
+              "output:TABLE mid-list / flow-mods / buffer releases), frame records turned into "
               "bytes by TLC (Frames!Enc), are replayed on a real SoftwareSwitch; after EVERY step the "
               "(port, bytes) of every DpPacketOut, every packet-in, the counters of all ports and the port "
               "configuration read over the wire must equal the spec's.  Recorded random histories of the real "
@@ -315,12 +332,20 @@ def run(ctx):
       "30 shapes x 43 action lists (each rewrite alone, before/after an output, with a VLAN push / strip, to the "
       "controller) in flow entries and in packet-outs, and in the simulated / recorded histories; action lists: every list of length <= 2 over the "
       "alphabet (thorough 28 actions: 14 rewrites over the 10 rewrite types + 14 outputs/enqueues to ports 1-3, an "
-      "absent port, IN_PORT, FLOOD, ALL, CONTROLLER with max_len 65535/0, NORMAL, LOCAL, NONE; quick 10 + 8; TABLE in "
-      "packet-outs) + output-rewrite-output and rewrite-rewrite-output triples exhaustively, length <= 6 by seeded random lists; port "
+      "absent port, IN_PORT, FLOOD, ALL, CONTROLLER with max_len 65535/0, NORMAL, LOCAL, NONE; quick 10 + 8; TABLE last in "
+      "these packet-outs) + output-rewrite-output and rewrite-rewrite-output triples exhaustively, length <= 6 by seeded random lists; port "
       "flags: all 64 sets of the six settable bits on port 1 (x 8 sets on port 2 in thorough)",
       "the flow table holds at most one, match-everything entry (matching is C03/C04's subject); packet buffers "
-      "are plentiful (C18 covers exhaustion); output:TABLE is exercised as the last action of a packet-out list "
-      "only (what later actions see after TABLE differs between switches) and never in a flow entry",
+      "are plentiful (C18 covers exhaustion); output:TABLE anywhere in a packet-out / buffer-release list (tabmid: 19 "
+      "lists with TABLE first / in the middle / twice x 6 entries that rewrite the Ethernet header AND the headers below "
+      "it + the empty table x tagged and untagged frames; tabpaths: every operation sequence of length 3 over such "
+      "packet-outs, flow-mods and releases of the frames the table handed to the controller; random positions in the "
+      "recorded histories), never in a flow entry (the code recurses without bound there)",
+      "spec latitude for what the REST of a list works on after output:TABLE (the statement does not decide between the "
+      "reference switch, which gives the table a copy, and resubmit-style switches): either the list's own frame "
+      "(the code does this) or the frame with ALL rewrites of the matching entry applied - both are exported / tried "
+      "by TLC, nothing in between is accepted; in both readings what the table emitted or handed to the controller is "
+      "never touched by later actions of the list",
       "frames carry correct lengths and checksums (or, UDP, none) and no Ethernet padding; frames arriving on a port that is "
       "administratively down, and nw/tp rewrites of a first IPv4 fragment, are outside the model",
       "spec latitude: frames emitted by ONE flood/all action are a set per action (order between actions fixed); "
@@ -366,6 +391,7 @@ def run(ctx):
       futs = {n: pool.submit(mx, n) for n in names}
       futs["sim"] = pool.submit(simulate, None)
       futs["paths"] = pool.submit(mx, PATHS[ctx.tier if ctx.tier in PATHS else "quick"])
+      futs["tabpaths"] = pool.submit(mx, TABPATHS)
       results = {n: f.result() for n, f in futs.items()}
   finally:
     os.unlink(lpath)
@@ -392,6 +418,19 @@ def run(ctx):
   ctx.add_model("Datapath all operation sequences of length %d (small alphabet)" % len(paths[0]), r,
                 properties=PROPS + ["TypeOK"], paths=len(paths))
   exported["paths"] = paths
+  r = results["tabpaths"]
+  if r.violated:
+    raise tlc.TLCError("spec violates its own property %s (tabpaths):\n%s" % (r.violated, r.error_trace[:3000]))
+  tpaths = r.tagged("H")
+  seen = set(st["a"] for b in tpaths for st in b)
+  # vacuity guard: a frame handed over by a TABLE that sits in the MIDDLE of a list is released later
+  later = [b for b in tpaths if any(b[i]["a"] == "PacketOut" and table_pos(b[i]["args"]["acts"]) == "mid" and b[i]["exp"]["pins"]
+                                    and any(x["a"] == "PacketOutBuf" for x in b[i + 1:]) for i in range(len(b)))]
+  if not {"PacketOut", "PacketOutBuf", "FlowMod", "FlowDel"} <= seen or not later:
+    raise tlc.TLCError("vacuous all-paths export (tabpaths): actions %s, TABLE-mid/release paths %d" % (sorted(seen), len(later)))
+  ctx.add_model("Datapath all operation sequences of length %d (packet-outs with output:TABLE mid-list, flow-mods, "
+                "buffer releases)" % len(tpaths[0]), r, properties=PROPS + ["TypeOK"], paths=len(tpaths))
+  exported["tabpaths"] = tpaths
   sim = results["sim"].tagged("H")
   if len(sim) < num // 2:
     raise tlc.TLCError("simulation exported %d behaviours" % len(sim))
@@ -423,6 +462,17 @@ def run(ctx):
       missing = [k for k in need if not cover.get("csum:" + k)]
       if missing or not cover.get("either_way_frames"):
         raise tlc.TLCError("vacuous export (%s): no emitted frame on %s" % (n, missing or "either-way frames"))
+    if n == "tabmid":
+      # vacuity guard: TABLE in the middle of a list, with an entry installed, in both readings the spec leaves open
+      mid = [b for b in exported[n] if b[-1]["a"] == "PacketOut" and table_pos(b[-1]["args"]["acts"]) == "mid" and len(b) > 1]
+      keys = {}
+      for b in mid:
+        keys.setdefault(core.canon([[st["a"], st["args"]] for st in b]), set()).add(core.canon(b[-1]["exp"]))
+      if not mid or not any(len(v) > 1 for v in keys.values()):
+        raise tlc.TLCError("vacuous export (tabmid): %d TABLE-mid behaviours, %d with two readings"
+                           % (len(mid), sum(1 for v in keys.values() if len(v) > 1)))
+      ctx.notes["tabmid_cover"] = dict(table_mid_behaviours=len(mid), distinct_inputs=len(keys),
+                                       inputs_with_two_readings=sum(1 for v in keys.values() if len(v) > 1))
     params = dict(NP=3, MissLen=128, **CONFIGS[n][1])
     replay(ctx, n, behs, params)
     if last is None and core.replay.last_ok:
@@ -435,6 +485,8 @@ def run(ctx):
     raise tlc.TLCError("vacuous export: no behaviour exercises %s" % empty)
   behs = [concretise(b, orc, shapes, ztab) for b in exported["paths"]]
   replay(ctx, "paths", behs, dict(NP=3, MissLen=128))
+  behs = [concretise(b, orc, shapes, ztab) for b in exported["tabpaths"]]
+  replay(ctx, "tabpaths", behs, dict(NP=3, MissLen=128, MaxHeld=2))
   behs = [concretise(b, orc, shapes, ztab) for b in exported["sim"]]
   replay(ctx, "sim", behs, dict(NP=3, MissLen=128, MaxHeld=2), chunk=10)
   if last is None:
@@ -468,9 +520,12 @@ def run(ctx):
     ctx.traces += len(traces)
     for t in traces:
       ctx.case(core.fp([[e["a"], e["args"]] for e in t]))
+    mid = sum(1 for t in traces for e in t if e["wf"] and e["a"] != "Rx" and table_pos(e["args"].get("acts")) == "mid")
     ctx.notes["trace_validation_" + kind] = dict(
         traces=len(traces), events=sum(len(t) for t in traces), rejected=len([1 for t in rejected if t < len(traces)]),
-        negative_controls_rejected=2)
+        negative_controls_rejected=2, table_mid_events=mid)
+    if not mid:
+      raise tlc.TLCError("vacuous recorded histories (%s): no list with output:TABLE before further actions" % kind)
   lap("trace_validation")
   ctx.exhaustive = True
 
@@ -507,7 +562,9 @@ def trace_signature(trace, i):
   lists = [ev["args"].get("acts") or [], flow if ev["a"] != "PacketOutBuf" else []]
   types = set(x["t"] for l in lists for x in l)
   shape = ev["args"].get("f", "")
+  mid_before = any(e["a"] in ("PacketOut", "PacketOutBuf") and table_pos(e["args"].get("acts")) == "mid" for e in trace[:i])
   return dict(action=ev["a"], via="trace", enqueue="enqueue" in types,
+              table_pos=table_pos(ev["args"].get("acts")) if ev["a"] != "Rx" else "", after_table_mid=mid_before,
               table=any(x["t"] == "output" and x["n"] == 0xfff9 for l in lists for x in l),
               odd_l4=str(shape).endswith("_odd"), cfi=shape == "t_cfi", first_frag=shape in FIRST_FRAGS, options="opt" in str(shape),
               csum_shape=TRACE_ZTAB.get(shape, ""),
@@ -591,6 +648,17 @@ class Recorder(object):
     return bool(wf)
 
 
+def with_table(rnd, acts):
+  """output:TABLE somewhere in the list: last (half of the time), else at a random position, sometimes twice."""
+  acts = list(acts)
+  if rnd.random() < 0.5:
+    return acts + [TABLE]
+  acts.insert(rnd.randint(0, len(acts) - 1), TABLE)
+  if rnd.random() < 0.15:
+    acts.insert(rnd.randint(0, len(acts)), TABLE)
+  return acts
+
+
 def drive(item):
   """One seeded random history on the real switch; returns the recorded trace."""
   rnd = random.Random(item["seed"])
@@ -621,19 +689,24 @@ def drive(item):
         continue                             # outside the model (Datapath!InModel)
     elif k < 0.74:
       acts = random_list(rnd, maxlen=5, controller=not buf or rnd.random() < 0.3)
-      if rnd.random() < 0.25:
-        acts = acts + [TABLE]
+      if rnd.random() < 0.3:
+        acts = with_table(rnd, acts)
       a, args = "PacketOut", dict(ip=rnd.choice([1, 2, 3, 0xffff]), f=rnd.choice(shapes_free), acts=acts)
-      worst = pins_of(acts) + (max(pins_of(rec.flow), 1) if acts[-1] == TABLE else 0)
+      worst = pins_of(acts) + acts.count(TABLE) * (pins_of(rec.flow) if rec.has_flow else 1)
       if buf and rec.held + worst > 3:
         continue
-      if args["f"] in FIRST_FRAGS and (nw_rewrite(acts) or (acts[-1] == TABLE and nw_rewrite(rec.flow))):
+      if args["f"] in FIRST_FRAGS and (nw_rewrite(acts) or (TABLE in acts and nw_rewrite(rec.flow))):
         continue
     elif k < 0.82 and buf:
       if not rec.held:
         continue
       a, args = "PacketOutBuf", dict(k=rnd.randint(1, rec.held), acts=random_list(rnd, maxlen=4, controller=False))
-      if rec.heldff[args["k"] - 1] and nw_rewrite(args["acts"]):
+      if rnd.random() < 0.2:
+        args["acts"] = with_table(rnd, args["acts"])
+      acts = args["acts"]
+      if rec.held - 1 + acts.count(TABLE) * (pins_of(rec.flow) if rec.has_flow else 1) > 3:
+        continue
+      if rec.heldff[args["k"] - 1] and (nw_rewrite(acts) or (TABLE in acts and nw_rewrite(rec.flow))):
         continue
     elif k < 0.95:
       bits = [b for b in BITS if not (buf and b == "NO_PACKET_IN")]
